@@ -56,17 +56,29 @@ class IrEngineBase(Engine):
 
     corpus: Any = None
     full_ctx: Any = None
+    aux_failed = False
 
     def prepare(self, tier: str, seed: int) -> None:
         # thorough: histories of up to 240 calls (quick: up to 80)
         self.long_histories = tier == "thorough"
-        if IrEngineBase.corpus is None:
+        if IrEngineBase.corpus is None and not IrEngineBase.aux_failed:
             import os
 
             from simverif.engines import streamsim
 
-            IrEngineBase.corpus = streamsim.build_corpus(min(16, os.cpu_count() or 1))
-            _, IrEngineBase.full_ctx = streamsim._contexts()
+            # auxiliary workloads (corpus modules as starting IR, real passes): if the tree
+            # under test is too broken to load its dialects or to parse its own test files,
+            # the generated-IR histories - the core of the check - must still run
+            try:
+                _, IrEngineBase.full_ctx = streamsim._contexts()
+                IrEngineBase.corpus = streamsim.build_corpus(min(16, os.cpu_count() or 1))
+            except BaseException as e:  # noqa: BLE001
+                if isinstance(e, KeyboardInterrupt):
+                    raise
+                IrEngineBase.corpus = None
+                IrEngineBase.full_ctx = None
+                IrEngineBase.aux_failed = True
+                print(f"[{self.prop}] note: corpus / dialect loading failed ({type(e).__name__}); corpus-based workloads are skipped in this run, generated-IR histories run as usual")
             import gc
 
             gc.collect()
@@ -402,7 +414,7 @@ class C02Engine(IrEngineBase):
 
     def prepare(self, tier: str, seed: int) -> None:
         super().prepare(tier, seed)
-        if C02Engine.passes is None:
+        if C02Engine.passes is None and IrEngineBase.corpus is not None:
             from xdsl.transforms import get_all_passes
 
             names = sorted(n for n in get_all_passes() if n not in ("mlir-opt",))
@@ -419,7 +431,7 @@ class C02Engine(IrEngineBase):
 
     def run(self, ch: Chooser, trace: bool) -> RunResult:
         cfg = ch.stream("cfg")
-        if cfg.flag(1, 8):
+        if cfg.flag(1, 8) and C02Engine.passes is not None:
             return self._run_real_pass(cfg, trace)
         return super().run(ch, trace)
 
